@@ -27,10 +27,13 @@ OnPoll(c, fired) ==
            bad |-> (IF Judged(c) /\ g > c.hi THEN {"gap-too-long"} ELSE {})
               \cup (IF Judged(c) /\ f > c.hi THEN {"first-too-late"} ELSE {})]
 
+\* Only polls of the enabled timer count: a disabled timer is frozen (it "never raises one", and the
+\* count of polls between two interrupts is that of the enabled timer), so a disable / enable pair
+\* between two interrupts neither restarts nor shortens the count.
 OnEnable(c, en) ==
   IF en = c.en THEN [c |-> c, bad |-> {}]
-  ELSE IF en THEN [c |-> [c EXCEPT !.en = TRUE, !.first = IF c.stale THEN -1 ELSE 0, !.gap = -1], bad |-> {}]
-  ELSE [c |-> [c EXCEPT !.en = FALSE, !.first = -1, !.gap = -1], bad |-> {}]
+  ELSE IF en THEN [c |-> [c EXCEPT !.en = TRUE, !.first = IF c.gap >= 0 \/ c.first >= 0 \/ c.stale THEN @ ELSE 0], bad |-> {}]
+  ELSE [c |-> [c EXCEPT !.en = FALSE], bad |-> {}]
 OnReset(c) == [c |-> [c EXCEPT !.first = IF c.en THEN 0 ELSE -1, !.gap = -1, !.stale = FALSE], bad |-> {}]
 OnRange(c, lo, hi) == [c |-> [c EXCEPT !.lo = lo, !.hi = hi, !.first = -1, !.gap = -1, !.stale = TRUE], bad |-> {}]
 =============================================================================
